@@ -547,7 +547,9 @@ func c18Tail(p *Prog, r *Report, fi *FuncInfo) {
 	}
 	// satellites
 	tmp := NewReport("C09", r.Tier, r.Seed)
+	c09EqualityIsCare = true
 	c09Guard(p, tmp)
+	c09EqualityIsCare = false
 	c09Mirror(p, tmp)
 	for _, o := range tmp.Obls {
 		o.Rule = "C18.d"
